@@ -469,6 +469,8 @@ def run(ctx):
 
     import extra_oracles
     extra_oracles.c17_ill_conditioned(ctx, orthonormalize)
+    import extra_oracles as _xo
+    _xo.api_history_and_dtype(ctx, "C17")
     ctx.notes["rule"] = (
         "exhaustive: all permutations of n<=5 (quick) / n<=6 (thorough) through identity/is_perm/inverse/from_int/to_int/to_cycles/sign/"
         "natural_representation/group; all non-permutation tuples over range(n+2) of length <=3 (4) through the guarded functions incl. "
